@@ -16,18 +16,46 @@ IO_PARAMS = st.fixed_dictionaries({'delim': st.sampled_from(DELIMS), 'enc': st.s
                                    'target': st.sampled_from(TARGETS)})
 
 
+_PROC_DIR = {}
+
+
 class Scratch:
-    """A private temporary directory, removed on exit (outside /repo and /verif)."""
+    """A private temporary directory (outside /repo and /verif).  One directory per process, created on
+    first use and removed at exit, with FIXED file names: consecutive cases overwrite the same paths, so
+    anything the library remembers about a path (size, mtime, cached contents) is exercised."""
 
     def __enter__(self):
-        self.dir = tempfile.mkdtemp(prefix='dxverif_')
+        pid = os.getpid()
+        if pid not in _PROC_DIR:
+            import atexit
+            d = tempfile.mkdtemp(prefix='dxverif_')
+            _PROC_DIR.clear()
+            _PROC_DIR[pid] = d
+            atexit.register(shutil.rmtree, d, True)
+        self.dir = _PROC_DIR[pid]
         return self
 
     def __exit__(self, *a):
-        shutil.rmtree(self.dir, ignore_errors=True)
+        # files are overwritten by the next case; the directory goes away with the process
+        # (multiprocessing workers skip atexit handlers, so the runner sweeps leftovers as well)
+        pass
 
     def path(self, name):
         return os.path.join(self.dir, name)
+
+
+def sweep():
+    """Remove the per-process scratch directory (called by the runner at the end of a shard)."""
+    for d in list(_PROC_DIR.values()):
+        shutil.rmtree(d, ignore_errors=True)
+    _PROC_DIR.clear()
+
+
+def spaced_labels(nodes, delim):
+    """With a delimiter that is not a blank, a label may contain a blank: 'zz' -> 'z z' (and 'n1' -> 'n 1')."""
+    if delim in (None, ' '):
+        return nodes
+    return [{'zz': 'z z', 'n1': 'n 1'}.get(n, n) if isinstance(n, str) else n for n in nodes]
 
 
 def ascii_only(nodes):
